@@ -92,7 +92,11 @@ func isConnectionSpecific(k []byte) bool {
 
 func ToLower(b []byte) []byte {
 	for i := range b {
-		b[i] |= 32
+		// Only the letters: setting the bit on every octet also rewrites '_'
+		// and '^', which are legal in a field name, and '@', '[', '\\', ']'.
+		if c := b[i]; c >= 'A' && c <= 'Z' {
+			b[i] = c | 32
+		}
 	}
 
 	return b
